@@ -48,6 +48,36 @@ CLAIMS = {
         technique="static analysis: must-pass-through on MIR CFG with alias tracking + "
                   "interprocedural must-write summaries; data-dependence of returned iterators",
     ),
+    "C06": dict(
+        text="Clauses decided for all inputs and, in the thorough tier, for the NEON and SIMD128 "
+             "code that cannot run in this sandbox: the five MulDiv tables and is_supported equal "
+             "the set of AlphaMulDiv impls; every value stored by a SIMD division routine is derived "
+             "from the quotient through a saturating narrowing of the component width (expression "
+             "DAG cut at packus/min-with-constant/vqmovn/narrow nodes, callees inlined); the "
+             "operand of every wrapping float->int conversion in x86/wasm division primitives is "
+             "bounded below 2^31 (lane-interval evaluation through masks, byte shuffles, "
+             "unpack-with-zero); native routines copy the alpha component; two-image and in-place "
+             "variants reach the same primitives; arithmetic of div_and_clip{,16} against the "
+             "reciprocal tables' maxima cannot overflow. Does NOT decide exact rounding of "
+             "mul_div_255/65535 nor faithfulness of the reciprocals.",
+        note="Intrinsic classification tables (saturating / arithmetic / load) are in "
+             "fircheck/engines/deps.py; lane bounds assume alpha >= 1 (alpha == 0 is the "
+             "kernels' documented indefinite-value path).",
+        technique="static analysis: data-dependence (derived-through) over symbolic expression "
+                  "DAGs of MIR with callee inlining + interval evaluation of SIMD lanes",
+    ),
+    "C09": dict(
+        text="Scratch-buffer discipline decided on all paths: each of the 4 scratch images "
+             "(premultiply, two temp images of the two-pass convolution, supersampling) is the "
+             "destination of a must-write operation before any read (dominance); "
+             "get_temp_image_from_buffer sizes count*size + size() bytes, grows only, uses the "
+             "aligned middle part and slices exactly width*height pixels for an image of the same "
+             "dimensions; the premultiply scratch has the multiplied view's size. Does NOT decide "
+             "that writers fill every pixel (C05's kernel-internal part) nor compares runs.",
+        note="Writer = callee with a must-write summary (C05) on the scratch parameter.",
+        technique="static analysis: write-before-read typestate via dominators + must-write "
+                  "summaries; structural matching of the sizing expression (MIR)",
+    ),
     "C07": dict(
         text="Typestate of the alpha pipeline in Resizer::resample_convolution, decided on all CFG "
              "paths: premultiply only under use_alpha && is_supported; on its success edge the "
